@@ -97,6 +97,7 @@ NumProds(env) ==
   \cup (IF Prof.first THEN {P(Tok("First", "", "", 0, 1), <<Hole(S(N), env)>>)} ELSE {})
   \cup (IF Prof.index THEN {P(Tok("Idx", "", "", 0, 1), <<Hole(V(N), env), Hole(ICONST, env)>>)} ELSE {})
   \cup {P(Tok("Math", f[1], "", f[2], 1), [i \in 1..f[2] |-> Hole(N, env)]) : f \in Prof.math}
+  \cup (IF Prof.enums THEN {P(Tok("EnumArg", EnumValues[i], "", i - 1, 1), <<Hole(O("A"), env)>>) : i \in DOMAIN EnumValues} ELSE {})
   \cup {P(Tok("UserFn", UserFns[i].id, UserFns[i].style, Len(UserFns[i].params) + (IF UserFns[i].style = "method" THEN 1 ELSE 0), 1),
            (IF UserFns[i].style = "method" THEN <<Hole(O("A"), env)>> ELSE <<>>)
            \o [j \in 1..Len(UserFns[i].params) |-> Hole(N, env)]) :
@@ -107,6 +108,7 @@ BoolProds(env) ==
   \cup {P(Tok(op, "", "", 2, 1), <<Hole(B, env), Hole(B, env)>>) : op \in Prof.boolops}
   \cup (IF Prof.not THEN {P(Tok("Un", "not", "", 0, 1), <<Hole(B, env)>>)} ELSE {})
   \cup BoolMeth(env)
+  \cup (IF Prof.enums THEN {P(Tok("EnumCmp", EnumValues[i], "", i - 1, 1), <<Hole(O("A"), env)>>) : i \in DOMAIN EnumValues} ELSE {})
   \cup (IF Prof.boolConst THEN {P(Tok("Const", "bool", "", 1, 1), <<>>)} ELSE {})
 
 HasEv(env) == VarsOf(env, EV) # {}
@@ -224,7 +226,7 @@ Complete == agenda = <<>>
 (* prefix tokens -> tree *)
 Arity(tk) ==
   CASE tk.k \in {"DS", "Const", "Str", "Var", "Lit"} -> 0
-    [] tk.k \in {"First", "Count", "Sum", "Min", "Max", "Coll", "Single", "Un", "TupIdx", "DictGet", "Meta"} -> 1
+    [] tk.k \in {"First", "Count", "Sum", "Min", "Max", "Coll", "Single", "Un", "TupIdx", "DictGet", "Meta", "EnumCmp", "EnumArg"} -> 1
     [] tk.k \in {"Select", "SelectMany", "Where", "Range", "Idx", "Bin", "Cmp"} -> 2
     [] tk.k \in {"Aggregate", "If"} -> 3
     [] tk.k \in {"And", "Or", "Tuple", "List", "Math", "UserFn"} -> tk.n
